@@ -93,6 +93,16 @@ class History:
                      if p != self.phase][0]
             self.params["phase_assemblage"] = (self.phase, other)
             self.params["phase_fractions"] = (float(case["phi"]), 1.0 - float(case["phi"]))
+        # argument forms: the documented parameter dictionary holds tuples; lists, arrays and numpy scalars are
+        # equally valid "NumPy-compatible" values
+        forms = int(case["seed"]) % 4
+        if forms == 1:
+            self.params["phase_assemblage"] = list(self.params["phase_assemblage"])
+            self.params["phase_fractions"] = list(self.params["phase_fractions"])
+        elif forms == 2:
+            self.params["phase_fractions"] = np.array(self.params["phase_fractions"], dtype=float)
+            for key in ("stress_exponent", "deformation_exponent", "nucleation_efficiency", "gbm_mobility", "gbs_threshold"):
+                self.params[key] = np.float64(self.params[key])
         fd = dict(case["L"])
         k = float(fd.get("k", 1.0))
         self.strain = float(case["strain"])
